@@ -2070,6 +2070,10 @@ class ArmiObject(metaclass=CompositeModelType):
             denominator += nDen
         return numerator / denominator
 
+    def _getVolumeForMass(self):
+        """Volume in cm^3 that the masses of this object refer to (see ``Component.getMass``)."""
+        return self.getVolume()
+
     def getMasses(self):
         """
         Return a dictionary of masses indexed by their nuclide names.
@@ -2080,7 +2084,7 @@ class ArmiObject(metaclass=CompositeModelType):
         because getMass is too slow on a large tree.
         """
         numDensities = self.getNumberDensities()
-        vol = self.getVolume()
+        vol = self._getVolumeForMass()
         return {
             nucName: densityTools.getMassInGrams(nucName, vol, ndens)
             for nucName, ndens in numDensities.items()
@@ -2143,7 +2147,7 @@ class ArmiObject(metaclass=CompositeModelType):
         mass : float
             mass in grams of nuclide to be added to this armi Object
         """
-        volume = self.getVolume()
+        volume = self._getVolumeForMass()
         addedNumberDensity = densityTools.calculateNumberDensity(nucName, mass, volume)
         self.setNumberDensity(
             nucName, self.getNumberDensity(nucName) + addedNumberDensity
@@ -2174,7 +2178,7 @@ class ArmiObject(metaclass=CompositeModelType):
             Mass in grams to set.
 
         """
-        d = calculateNumberDensity(nucName, mass, self.getVolume())
+        d = calculateNumberDensity(nucName, mass, self._getVolumeForMass())
         self.setNumberDensity(nucName, d)
 
     def setMasses(self, masses):
